@@ -86,4 +86,44 @@ have : invmx (S'^T *m S') = invmx (S^T *m S) by rewrite -E -E2.
 by move/(congr1 invmx); rewrite !invmxK.
 Qed.
 
+(* --- deepening round 2 --- *)
+(* neumann boundary with the regularisation eps as a variable: for EVERY eps (the code uses sqrt(machine eps)), with
+   Pe = P + eps I, P = D^T D, r^2 = prec and the sampler's map T = (r Pe)^-1 D^T, the covariance C = T T^T satisfies
+   prec Pe C Pe = P exactly, and therefore
+        prec P C P = P - prec (eps (P C + C P) + eps^2 C):
+   the deviation from the generalised-inverse identity prec P C P = P is explicit and vanishes with eps.
+   (The limit itself -- C converges to the pseudo-inverse of prec P as eps -> 0 -- needs a norm bound on C and is not proved.) *)
+Theorem gmrf_neumann_cov_eps n m (D : 'M[F]_(m, n)) (T : 'M[F]_(n, m)) (r prec eps : F) :
+  let P := D^T *m D in let Pe := P + eps%:M in let C := T *m T^T in
+  r * r = prec -> (r *: Pe) *m T = D^T ->
+  (prec *: Pe) *m C *m Pe = P /\
+  prec *: (P *m C *m P) = P - prec *: (eps *: (P *m C + C *m P) + (eps * eps) *: C).
+Proof.
+move=> P Pe C Hr H.
+have PeT : Pe^T = Pe.
+  by rewrite /Pe /P linearD /= trmx_mul trmxK tr_scalar_mx.
+have E1 : (prec *: Pe) *m C *m Pe = P.
+  by have := gmrf_neumann_cov Hr H; rewrite PeT.
+split=> //.
+have X : Pe *m C *m Pe = P *m C *m P + (eps *: (P *m C + C *m P) + (eps * eps) *: C).
+  rewrite /Pe !mulmxDl !mulmxDr !mul_scalar_mx !mul_mx_scalar.
+  by rewrite -scalemxAl scalerA scalerDr -!addrA.
+have E2 : prec *: (Pe *m C *m Pe) = P by rewrite -E1 -!scalemxAl.
+by apply/eqP; rewrite eq_sym subr_eq -scalerDr -X E2.
+Qed.
+
+(* the correct pairing for a spectral (DFT-type) sampler: if P = U L U^T with U orthogonal (real Fourier basis) and the
+   sampler's covariance is C = U W2 U^T, then prec-free  P C P = P  holds as soon as each weight is paired with the
+   eigenvalue OF THE SAME basis vector:  L W2 L = L  (w_k^2 lambda_k^2 = lambda_k; zero eigenvalues impose nothing).
+   The code pairs eigsh-sorted eigenvalues with DFT frequencies instead (C05_gmrf_periodic_cov_refuted). *)
+Theorem spectral_pairing n (U L W2 : 'M[F]_n) :
+  U^T *m U = 1%:M -> L *m W2 *m L = L ->
+  let P := U *m L *m U^T in let C := U *m W2 *m U^T in P *m C *m P = P.
+Proof.
+move=> HU HL P C; rewrite /P /C.
+have E : forall A B : 'M[F]_n, (U *m A *m U^T) *m (U *m B *m U^T) = U *m (A *m B) *m U^T.
+  by move=> A B; rewrite !mulmxA -(mulmxA (U *m A)) HU mulmx1.
+by rewrite E E HL.
+Qed.
+
 End Cov.
